@@ -22,7 +22,23 @@ def surface(ctx, which):
         else:
             rx = re.compile(pat)
             roots += [f for p, f in ctx.fx.fns.items() if rx.search(p)]
-    return ctx.cg.reachable(roots)
+    cut = set(tbl.get(which + "_cut", []))
+    if not cut:
+        return ctx.cg.reachable(roots)
+    seen = {}
+    st = list(roots)
+    for r in roots:
+        seen[r.path] = r
+    while st:
+        f = st.pop()
+        for c in ctx.cg.calls[f.path]:
+            if c.kind == "call" and c.term.get("callee") in cut:
+                continue
+            for g in c.all_targets():
+                if g.path not in seen:
+                    seen[g.path] = g
+                    st.append(g)
+    return seen
 
 
 # ------------------------------------------------------------------ sinks --
@@ -240,6 +256,20 @@ class Classifier:
                     auto = ("guarded", "len > index of the same container dominates")
             if auto is None and re.match(r"^(RangeFull|Range::RangeFull)", idx):
                 auto = ("const/iter", "full range")
+            # buf[0..min(buf.len(), x)]
+            m = re.match(r"^Range(To)?::Range(To)?\((?:const:0,)?(?:cmp|Ord)::min\((.*)\)\)$", idx)
+            if auto is None and m:
+                parts = _split_top(m.group(3))
+                if any(x in lens for x in parts):
+                    auto = ("interval", "slice end is min(len of the same slice, ..)")
+            # v[n-1] with n != 0 and n <= len
+            m = re.match(r"^Sub\((.*),const:1\)$", idx)
+            if auto is None and m:
+                n_ = m.group(1)
+                nz = any((rop == "Ne" and x == n_ and y == "const:0") or (rop == "Gt" and x == n_ and y == "const:0") for (rop, x, y) in rels)
+                le = any((rop in ("Le", "Lt") and x == n_ and y in lens) for (rop, x, y) in rels)
+                if nz and le:
+                    auto = ("guarded", "n != 0 and n <= len dominate v[n-1]")
         elif kind == "BoundsCheck":
             idx = ops[1]
             desc = "BoundsCheck(len=%s, index=%s)" % (ops[0], idx)
@@ -267,3 +297,331 @@ class Classifier:
                 continue
             return e
         return None
+
+
+# ------------------------------------------------------------------ R-TERM --
+
+FINITE_ITERS = (r"std::slice::Iter(Mut)?<", r"std::ops::Range(Inclusive)?<", r"std::iter::Enumerate<std::slice::Iter", r"std::iter::Zip<", r"std::str::(Bytes|Chars|CharIndices|EncodeUtf16)",
+                r"std::path::Components", r"std::array::IntoIter", r"std::iter::Take<", r"std::iter::Map<std::str::Chars", r"std::vec::IntoIter", r"std::iter::Copied<std::slice::Iter", r"std::iter::Rev<")
+
+
+def _loop_cycle_passes(pg, fn, header, body, nodeset):
+    """True iff every cycle through the loop header passes a node of nodeset."""
+    start = pg.entry_of(header)
+    body_nodes_ok = lambda n: (n[1] in body)
+    seen = set()
+    st = [m for m in pg.succ.get(start, [])]
+    # walk forward inside the body, not through nodeset; do we come back to the header's entry?
+    work = list(st)
+    if start in nodeset:
+        return True
+    # first, advance from the header's own nodes
+    while work:
+        n = work.pop()
+        if n in seen or n in nodeset:
+            continue
+        if not body_nodes_ok(n):
+            continue
+        if n == start:
+            return False
+        seen.add(n)
+        work.extend(pg.succ.get(n, []))
+    return True
+
+
+def loop_certificates(ctx, f, header, body):
+    v = view(ctx, f)
+    pg = v.pg
+    g = guards(ctx, f)
+    pr = g.prov
+    tbl = ctx.table("term")
+    certs = []
+    calls = [c for bb, c in v.calls.items() if bb in body]
+    # exit edges
+    exits = []
+    for b in body:
+        for k, tgt in enumerate(f.succ(b)):
+            if tgt not in body and not f.blocks[tgt]["cleanup"]:
+                exits.append((b, k, tgt))
+    # ITER
+    for c in calls:
+        t = c.term
+        if t.get("callee_trait") == "std::iter::Iterator" and t.get("callee_name") == "next" and t["args"]:
+            l = op_local(t["args"][0])
+            ity = peel(f.locals[l])["s"] if l is not None else ""
+            if any(re.search(rx, ity) for rx in FINITE_ITERS):
+                d = t["dest"]["local"]
+                from cg import _switch_on_discr
+                m = _switch_on_discr(f, t["target"], d) if t["target"] is not None else None
+                if m is not None:
+                    none_t = m.get(0, m["otherwise"])
+                    if none_t not in body or any(e[2] == none_t for e in exits):
+                        if _loop_cycle_passes(pg, f, header, body, {("t", c.bb)}):
+                            certs.append("ITER(%s)" % ity.split("<")[0].split("::")[-1])
+    # per-cycle call sets
+    def every_cycle(pred, ok_edge=False):
+        nodes = set()
+        for c in calls:
+            if pred(c):
+                if ok_edge:
+                    oks = v.ok_nodes(c.bb)
+                    nodes.update(oks if oks else [("t", c.bb)])
+                else:
+                    nodes.add(("t", c.bb))
+        return bool(nodes) and _loop_cycle_passes(pg, f, header, body, nodes)
+    # SHRINK
+    for c in calls:
+        short = c.name.split("::")[-1]
+        if short in ("pop", "truncate", "strip_suffix", "split_last", "remove") and c.term["args"]:
+            cont = pr.operand(c.term["args"][0])
+            grows = any(x.name.split("::")[-1] in ("push", "insert", "extend", "extend_from_slice", "resize", "append") and x.term["args"] and pr.operand(x.term["args"][0]) == cont for x in calls)
+            if not grows and every_cycle(lambda x: x.name.split("::")[-1] == short and x.term["args"] and pr.operand(x.term["args"][0]) == cont):
+                certs.append("SHRINK(%s)" % cont[-30:])
+    # GROW-TO-BOUND
+    for c in calls:
+        if c.name.split("::")[-1] == "push" and c.term["args"]:
+            cont = pr.operand(c.term["args"][0])
+            atoms = g.atoms_at(("t", c.bb))
+            if any(re.match(r"^\(Lt\(Vec::len\(%s\)," % re.escape(cont), a) for a in atoms) and every_cycle(lambda x: x.name.split("::")[-1] == "push" and pr.operand(x.term["args"][0]) == cont):
+                certs.append("GROW-TO-BOUND(%s)" % cont[-20:])
+    # SEEN-SET
+    for c in calls:
+        if c.name.split("::")[-1] == "contains" and ("HashSet" in c.name or "hash::set" in c.name or "<T, S, A>" in c.name) and c.term["args"]:
+            sset = pr.operand(c.term["args"][0])
+            ins = [x for x in calls if x.name.split("::")[-1] == "insert" and x.term["args"] and pr.operand(x.term["args"][0]) == sset]
+            if not ins:
+                continue
+            # the `contains == true` edge must leave the loop
+            d = c.term["dest"]["local"]
+            leaves = False
+            for b in body:
+                t = f.blocks[b]["term"]
+                if t["t"] == "switch" and op_local(t["discr"]) == d:
+                    for val, tgt in t["arms"]:
+                        pass
+                    tgt_true = t["otherwise"]
+                    reach = pg.reach([pg.entry_of(tgt_true)])
+                    leaves = pg.entry_of(header) not in reach or tgt_true not in body
+            if leaves and every_cycle(lambda x: x in ins) and every_cycle(lambda x: x is c):
+                certs.append("SEEN-SET(%s)" % sset[-20:])
+    # CHAIN-WALK / MARK-REFUSE / TRUSTED
+    checked_next = tbl.get("checked_next", "Allocator::<F>::next$|MiniAllocator::<F>::next_mini_sector$")
+    if every_cycle(lambda x: re.search(checked_next, x.name), ok_edge=True):
+        first_exit = False
+        for (b, k, tgt) in exits:
+            a = g.describe(b, *_edge_label(f, b, k)) if f.blocks[b]["term"]["t"] == "switch" else None
+            if a and re.match(r"^\(Eq\(var:\w+,(param:\w+|var:first\w*)\)\)$", a):
+                first_exit = True
+        if first_exit:
+            certs.append("CHAIN-WALK")
+        mr = tbl.get("mark_refuse", "")
+        if mr and every_cycle(lambda x: re.search(mr, x.name), ok_edge=True):
+            certs.append("MARK-REFUSE")
+        for fn_rx, inv in tbl.get("trusted_checked_walks", {}).items():
+            if re.search(fn_rx, f.path):
+                certs.append("TRUSTED(%s)" % inv)
+    # link-field walks
+    links = tbl.get("link_fields", ["left_sibling", "right_sibling", "child"])
+    carried_from_link = False
+    for b in body:
+        for i, st in enumerate(f.blocks[b]["stmts"]):
+            if st["s"] == "assign" and not st["place"]["proj"] and st["place"]["local"] in f.debug_names():
+                dp = pr._def((b, i, st), 0, ())
+                alts = dp[4:-1].split("|") if dp.startswith("phi(") else [dp]
+                if any(a.endswith("." + lf) for a in alts for lf in links):
+                    carried_from_link = True
+    if carried_from_link and not re.search(tbl.get("establishers", {}).get("I-TREE-ACYCLIC", "$^"), f.path):
+        certs.append("TRUSTED(I-TREE-ACYCLIC)")
+    for fn_rx, inv in tbl.get("trusted_raw_walks", {}).items():
+        if re.search(fn_rx, f.path):
+            certs.append("TRUSTED(%s)" % inv)
+    return certs
+
+
+def _edge_label(f, b, k):
+    t = f.blocks[b]["term"]
+    vals = [str(x) for x, _ in t["arms"]] + ["otherwise"]
+    return vals[k], vals
+
+
+def term(which):
+    def run(ctx):
+        res = RuleResult("R-TERM(%s)" % which, "every loop reachable from the %s surface has a termination certificate that does not depend on the file being sane" % which)
+        surf = surface(ctx, which)
+        n = 0
+        for p, f in sorted(surf.items()):
+            for (h, body, back) in natural_loops(f):
+                n += 1
+                certs = loop_certificates(ctx, f, h, body)
+                line = f.blocks[h]["term"]["span"]["line"]
+                if certs:
+                    res.ok({"function": p, "loop_line": line, "certificates": certs}, nontrivial=True)
+                else:
+                    callees = sorted(set(c.name.split("::")[-1] for bb, c in view(ctx, f).calls.items() if bb in body))[:8]
+                    res.fail(Finding(res.rule, "%s/%s/loop-without-certificate/%s" % (res.rule, p, "+".join(callees)[:80]),
+                                     "loop (line %d) has no termination certificate (no finite std iterator, no shrinking collection, no seen-set, no checked chain walk with first-sector test, no listed acyclicity invariant): a crafted file could keep it running for ever; calls in the loop: %s" % (line, ", ".join(callees)), f, f.blocks[h]["term"]["span"]))
+        res.floor("loops", n, ctx.table("floors").get("term_loops_" + which, 0))
+        return res
+    return run
+
+
+# ----------------------------------------------------------------- R-ALLOC --
+
+ALLOC_FNS = {"with_capacity": 0, "from_elem": 1, "resize": 1, "reserve": 1, "reserve_exact": 1, "with_capacity_in": 0, "try_reserve": 1, "repeat": 1}
+ALLOC_LIMIT = 1 << 20
+
+
+def alloc(which):
+    def run(ctx):
+        from bounds import MirBounds
+        res = RuleResult("R-ALLOC(%s)" % which, "no single allocation takes its size from file contents (or an unclamped caller value) without a bound: constant / interval-bounded, guarded by a comparison with a constant, clamped through min(), or the length of an already materialised chain")
+        surf = surface(ctx, which)
+        tbl = ctx.table("alloc")
+        n = 0
+        for p, f in sorted(surf.items()):
+            g = None
+            for c in ctx.cg.calls[f.path]:
+                if c.kind != "call":
+                    continue
+                short = c.name.split("::")[-1]
+                if short not in ALLOC_FNS or not re.search(r"vec::|Vec|String|slice|from_elem", c.name):
+                    continue
+                ai = ALLOC_FNS[short]
+                if ai >= len(c.term["args"]):
+                    continue
+                n += 1
+                g = g or guards(ctx, f)
+                size = c.term["args"][ai]
+                sp = g.prov.operand(size)
+                ub = MirBounds(ctx, f).operand(size)
+                atoms = norm_atoms(g.atoms_at(("t", c.bb)))
+                key = "%s/%s/%s" % (res.rule, p, short)
+                why = None
+                if ub is not None and ub <= ALLOC_LIMIT:
+                    why = "interval: size <= %d" % ub
+                if why is None:
+                    for (rop, x, y) in rel_atoms(atoms):
+                        if x == sp and rop in ("Lt", "Le") and re.match(r"^const:", y):
+                            why = "guarded: size %s %s on every path" % (rop, y)
+                if why is None and re.search(r"(Ord|cmp)::min\(", sp) and re.search(tbl.get("clamp_sources", r"max_size"), sp):
+                    why = "clamped through min(.., configured maximum)"
+                if why is None and re.search(r"Chain::len\(", sp):
+                    why = "length of a chain that has already been materialised sector by sector"
+                if why is None:
+                    for e in tbl.get("audited", []):
+                        if re.search(e["function"], p) and re.search(e["size"], key_of(sp)):
+                            miss = [rx for rx in e.get("require", []) if not any(re.search(rx, a) for a in atoms)]
+                            if miss:
+                                res.fail(Finding(res.rule, key + "/guard-gone", "allocation of %s bytes: the audited bound (%s) needs a guard that no longer dominates it: %s" % (sp[:60], e["reason"], miss[0]), f, c.term["span"]))
+                                why = "x"
+                            else:
+                                why = "audited: " + e["reason"]
+                            break
+                if why == "x":
+                    continue
+                if why:
+                    res.ok({"function": p, "alloc": short, "size": sp[:80], "bounded": why}, nontrivial=True)
+                else:
+                    res.fail(Finding(res.rule, key + "/unbounded-size", "allocation (%s) sized by %s, which is read from the file or supplied by the caller without a bound: a few corrupted bytes can demand gigabytes" % (short, sp[:120]), f, c.term["span"]))
+        res.floor("allocation sites", n, ctx.table("floors").get("alloc_sites_" + which, 0))
+        return res
+    return run
+
+
+# ------------------------------------------------------------------ R-SINK --
+
+def sink(which):
+    def run(ctx):
+        res = RuleResult("R-SINK(%s)" % which, "every panic-capable site (bounds / overflow / division checks, index calls, unwrap, assertion and panic expansions) reachable from the %s surface is discharged: by interval evaluation, by a dominating guard, by an id qualifier, or by an audited table entry whose required guards still dominate it" % which)
+        surf = surface(ctx, which)
+        cl = Classifier(ctx)
+        n = 0
+        classes = {}
+        for p, f in sorted(surf.items()):
+            for s in enumerate_sinks(f):
+                n += 1
+                desc, atoms, auto = cl.classify(f, s)
+                key = "%s/%s/%s/%s" % (res.rule, p, s["kind"], key_of(desc)[:140])
+                if auto:
+                    classes[auto[0]] = classes.get(auto[0], 0) + 1
+                    res.ok({"function": p, "sink": desc[:100], "class": auto[0], "why": auto[1]}, nontrivial=(auto[0] != "const/iter"))
+                    continue
+                e = cl.audited(f, s["kind"], desc, atoms)
+                if e is None:
+                    res.fail(Finding(res.rule, key + "/unclassified", "panic-capable site %s is not discharged by any interval, guard, qualifier or audited entry (conditions on the path: %s)" % (desc[:160], "; ".join(a[:70] for a in atoms[:4]) or "none"), f, s["span"]))
+                    continue
+                na = norm_atoms(atoms) + atoms
+                miss = [rx for rx in e.get("require", []) if not any(re.search(rx, a) for a in na)]
+                cls = e["class"]
+                reason = e["reason"]
+                if which == "read" and e.get("class_read"):
+                    cls = e["class_read"]
+                    reason = e.get("reason_read", reason)
+                if miss:
+                    res.fail(Finding(res.rule, key + "/guard-no-longer-dominates", "%s: the audited discharge (%s) needs a guard matching %s, which no longer dominates the site" % (desc[:120], e["reason"][:120], miss[0]), f, s["span"]))
+                    continue
+                if cls.startswith("known-finding"):
+                    fd = Finding(res.rule, "R-SINK/%s/%s/%s/%s" % (cls.split(":")[1], p, s["kind"], key_of(desc)[:110]), "%s: %s" % (desc[:120], e["reason"]), f, s["span"])
+                    res.fail(fd)
+                    continue
+                classes[cls.split("(")[0]] = classes.get(cls.split("(")[0], 0) + 1
+                res.ok({"function": p, "sink": desc[:100], "class": cls, "why": reason[:160]}, nontrivial=True)
+        res.notes.append({"classes": classes})
+        res.floor("sinks", n, ctx.table("floors").get("sinks_" + which, 0))
+        return res
+    return run
+
+
+def qual_rule(which):
+    def run(ctx):
+        from qual import Qual
+        res = RuleResult("R-QUAL(%s)" % which, "every id that reaches a trusted index / raw walk carries its qualifier: TreeId (ROOT, a successful lookup, a fresh slot, or a link compared with NO_STREAM), ChainStart / MiniSectorId (member of a chain validated by the checked next lookup)")
+        surf = surface(ctx, which)
+        n = 0
+        for kind, spec in ctx.table("qual").items():
+            if kind.startswith("_"):
+                continue
+            q = Qual(ctx, spec)
+            for (sinkfn, ai) in spec["sinks"]:
+                for (cf, cc) in q.callers_of(sinkfn):
+                    if cf.path not in surf:
+                        continue
+                    n += 1
+                    ok, why = q.check(cf, cc, ai)
+                    if ok:
+                        res.ok({"kind": kind, "caller": cf.path, "sink": sinkfn.split("::")[-1], "why": why[:120]}, nontrivial=True)
+                    else:
+                        res.fail(Finding(res.rule, "%s/%s/%s/%s" % (res.rule, kind, cf.path, sinkfn.split("::")[-1]),
+                                         "%s receives an id that is not a %s: %s" % (sinkfn.split("::")[-1], kind, why[:260]), cf, cc.term["span"]))
+            # audited contracts: every caller satisfies the requirement
+            for ac in spec.get("audited_contract", []):
+                for (cf, cc) in q.callers_of(ac["function"]):
+                    # walk up through thin forwarders until the requirement is visible
+                    n += 1
+                    if _caller_satisfies(ctx, q, cf, cc, ac["caller_requirement"], 0):
+                        res.ok({"kind": kind, "contract": ac["function"].split("::")[-1], "caller": cf.path, "requirement": "dominated by a successful lookup"}, nontrivial=True)
+                    else:
+                        res.fail(Finding(res.rule, "%s/%s/contract/%s" % (res.rule, kind, cf.path), "%s is called without a dominating successful lookup of the name (%s)" % (ac["function"].split("::")[-1], ac["reason"][:120]), cf, cc.term["span"]))
+        res.floor("qualified call sites", n, ctx.table("floors").get("qual_sites_" + which, 0))
+        return res
+    return run
+
+
+def _caller_satisfies(ctx, q, cf, cc, rx, depth):
+    g = guards(ctx, cf)
+    atoms = g.atoms_at(("t", cc.bb))
+    if any(re.search(rx, a) for a in atoms):
+        return True
+    # an Option::unwrap of the lookup right before also counts
+    pr = g.prov
+    for c2 in ctx.cg.calls[cf.path]:
+        if c2.kind == "call" and c2.name.split("::")[-1] in ("unwrap", "expect") and c2.term["args"]:
+            if re.search(r"stream_id_for_name_chain\(", pr.operand(c2.term["args"][0])):
+                v = view(ctx, cf)
+                if ("t", cc.bb) in v.pg.reach_after(("t", c2.bb)):
+                    return True
+    if depth < 3:
+        callers = q.callers_of(cf.path)
+        if callers and all(_caller_satisfies(ctx, q, f2, c2, rx, depth + 1) for (f2, c2) in callers):
+            return True
+    return False
